@@ -54,7 +54,7 @@ FailAll(ff, wy, cl) ==
   IF cl = <<>> THEN <<ff, wy>>
   ELSE LET r == Fail(ff, wy, cl[1][1], cl[1][2], cl[1][3]) IN FailAll(r[1], r[2], Tail(cl))
 
-Plain == sc.mut = "" /\ Len(sc.faults) = 0 /\ sc.closeReq = -1 /\ sc.closeWhen = "" /\ ~sc.onTracksErr
+Plain == sc.mut = "" /\ Len(sc.faults) = 0 /\ sc.closeReq = -1 /\ sc.closeWhen = "" /\ ~sc.onTracksErr /\ sc.closeData = 0 /\ sc.closeAtMs = 0
 
 FaultClass(k) == CASE k = "status" -> "status" [] k = "transport" -> "transport" [] k = "stall" -> "cancelled" [] OTHER -> k
 
@@ -178,10 +178,11 @@ TraceWait ==
          \* outcomes the models allow for this run
          allowed == Errs \cup (IF AllEnded THEN {"eos"} ELSE {})
                          \cup (IF sc.onTracksErr /\ st.tracks THEN {"ontracks"} ELSE {})
-         expectedStall == st.stall /\ ~(sc.closeReq >= 0 \/ sc.closeWhen # "")
+         expectedStall == st.stall /\ ~closed
          r == FailAll(f, why, <<
                 <<"c12", "C12_ExactlyOneError", e.got = 1 /\ e.extra = 0 /\ e.err # "nil">>,
                 <<"c12", "C12_NoGoroutineLeft", e.alive = 0>>,
+                <<"c12", "C12_NothingRunningAtOutcome", (e.got = 1 /\ ~st.forced) => (e.aliveNow = 0 /\ e.inCb = 0)>>,
                 <<"c12", "C12_NoCallbackAfterwards", e.cbAfter = 0>>,
                 <<"c12", "C12_NotWedged", st.forced => (expectedStall \/ sc.mut # "")>>,
                 <<"c12", "C12_ErrorSurfaced", (sc.mut = "" /\ ~closed /\ ~st.forced /\ e.got = 1) => e.err \in allowed>>,
